@@ -56,3 +56,58 @@ V("c14-set-wrong-key", "C14", SM, "            self.db[node_hash] = node\n\n    
 # --- C01 -------------------------------------------------------------------
 V("c01-get-writes-root", "C01", HX, "        trie_key = bytes_to_nibbles(key)\n        root_hash = self.root_hash\n        try:",
   "        trie_key = bytes_to_nibbles(key)\n        root_hash = self.root_hash\n        self.root_hash = root_hash\n        try:", rule="EFF4")
+
+# --- defects D1-D3 coming back must be reported again ---------------------------
+V("d1-returns", "C01", HX, "            # extension's path: in both cases nothing is stored at the requested key.\n            return BLANK_NODE",
+  "            if len(remaining_key) > 0:\n                raise ValidationError('unexpected')\n            return BLANK_NODE", rule="EXC1")
+V("d1-returns-c03", "C03", HX, "            # extension's path: in both cases nothing is stored at the requested key.\n            return BLANK_NODE",
+  "            if len(remaining_key) > 0:\n                raise ValidationError('unexpected')\n            return BLANK_NODE", rule="EXC1")
+V("d2-returns", "C05", HX, "scratch_db, self.root_hash, prune=True, ref_count=batch_ref_count", "scratch_db, self.root_hash, prune=True, ref_count=self._ref_count", rule="AL2")
+V("d3-returns", "C06", HX, "        self.root_hash = memory_trie.root_hash\n",
+  "        self.root_hash = self._set_raw_node(memory_trie.get_node(memory_trie.root_hash))\n", rule="AL2")
+# --- C01 / C03 EXC1 ---------------------------------------------------------------
+V("c01-new-guarded-raise-leaf", "C01", HX, "            if remaining_key == extract_key(node):\n                return node[1]",
+  "            if len(remaining_key) > len(extract_key(node)):\n                raise ValidationError('too long')\n            if remaining_key == extract_key(node):\n                return node[1]", rule="EXC1")
+V("c01-silent-infeasible-raise", "C01", HX, "        if node_type == NODE_TYPE_BLANK:\n            return BLANK_NODE\n        elif node_type == NODE_TYPE_LEAF:\n            if remaining_key == extract_key(node):",
+  "        if node_type == NODE_TYPE_BLANK:\n            if len(remaining_key) > 0:\n                raise ValidationError('blank with residue')\n            return BLANK_NODE\n        elif node_type == NODE_TYPE_LEAF:\n            if remaining_key == extract_key(node):", expect="silent")
+V("c03-proof-trie-pruning", "C03", HX, "        trie = cls({})\n", "        trie = cls({}, prune=True)\n", rule="EXC1")
+V("c03-catch-keyerror-instead", "C03", HX, "            except MissingTrieNode as e:\n                raise BadTrieProof(\n                    f\"Missing proof node with hash {e.missing_node_hash}\"\n                )",
+  "            except KeyError as e:\n                raise BadTrieProof(\n                    f\"Missing proof node with hash {e}\"\n                )", rule="EXC5")
+# --- C07 ----------------------------------------------------------------------------
+V("c07-get-node-outside-try-set", "C07", HX, "        try:\n            root_node = self.get_node(self.root_hash)\n\n            if value == b\"\":",
+  "        root_node = self.get_node(self.root_hash)\n        try:\n            if value == b\"\":", rule="EXC2")
+V("c07-handler-narrowed", "C07", HX, "            new_node = self._delete(root_node, trie_key)\n        except KeyError as exc:", "            new_node = self._delete(root_node, trie_key)\n        except IndexError as exc:", rule="EXC2")
+V("c07-swapped-hash-root", "C07", HX, "                traverse_exc.missing_node_hash,\n                root_hash,\n                key,", "                root_hash,\n                traverse_exc.missing_node_hash,\n                key,", rule="EXC3")
+V("c07-wrong-prefix-full-key", "C07", HX, "                raise MissingTraversalNode(exc.args[0], used_key)", "                raise MissingTraversalNode(exc.args[0], trie_key)", rule="EXC3")
+V("c07-wrong-prefix-off-by-one", "C07", HX, "                used_key = trie_key[: len(trie_key) - len(remaining_key)]\n\n                raise MissingTraversalNode", "                used_key = trie_key[: len(trie_key) - len(remaining_key) - 1]\n\n                raise MissingTraversalNode", rule="EXC3")
+V("c07-complete-pruning-in-finally", "C07", HX, "            yield\n            if self.is_pruning:\n                self._complete_pruning()\n        finally:\n            # Reset for next set/delete\n            self._pending_prune_keys = None",
+  "            yield\n        finally:\n            if self.is_pruning:\n                self._complete_pruning()\n            # Reset for next set/delete\n            self._pending_prune_keys = None", rule="ORD3")
+V("c07-no-reset-on-exception", "C07", HX, "        finally:\n            # Reset for next set/delete\n            self._pending_prune_keys = None",
+  "        except MissingTrieNode:\n            self._pending_prune_keys = None\n            raise\n        else:\n            self._pending_prune_keys = None", rule="ORD3")
+V("c07-silent-swallow-equivalent", "C07", HX, "                except KeyError:\n                    # The old root node is missing from the database, but the only",
+  "                except (KeyError,):\n                    # The old root node is missing from the database, but the only", expect="silent")
+# --- C05 ----------------------------------------------------------------------------
+V("c05-root-in-finally", "C05", HX, "            yield memory_trie\n", "            try:\n                yield memory_trie\n            finally:\n                self.root_hash = memory_trie.root_hash\n", rule="ORD5")
+V("c05-batch-not-pruning", "C05", HX, "scratch_db, self.root_hash, prune=True, ref_count=batch_ref_count", "scratch_db, self.root_hash, prune=self.is_pruning, ref_count=batch_ref_count", rule="PROV8")
+V("c05-do-deletes-const", "C05", HX, "batch_commit(do_deletes=self.is_pruning)", "batch_commit(do_deletes=False)", rule="PROV4")
+V("c05-silent-copy-inline", "C05", HX, "            if self._ref_count is None:\n                batch_ref_count = None\n            else:\n                batch_ref_count = self._ref_count.copy()\n",
+  "            batch_ref_count = None if self._ref_count is None else self._ref_count.copy()\n", expect="silent", props=["C05", "C06"])
+# --- C17 ----------------------------------------------------------------------------
+V("c17-commit-in-finally", "C17", DB, "        else:\n            for key, value in self.cache.items():\n                if value is not DELETED:\n                    self.wrapped_db[key] = value\n                elif do_deletes:\n                    self.wrapped_db.pop(key, None)\n                # if do_deletes is False, ignore deletes to underlying db\n        finally:\n            self.cache = {}",
+  "        finally:\n            for key, value in self.cache.items():\n                if value is not DELETED:\n                    self.wrapped_db[key] = value\n                elif do_deletes:\n                    self.wrapped_db.pop(key, None)\n            self.cache = {}", rule="ORD4")
+V("c17-swallow", "C17", DB, "        except Exception as exc:\n            raise exc\n", "        except Exception as exc:\n            pass\n", rule="ORD4")
+V("c17-no-reset-on-exception", "C17", DB, "                # if do_deletes is False, ignore deletes to underlying db\n        finally:\n            self.cache = {}",
+  "                # if do_deletes is False, ignore deletes to underlying db\n            self.cache = {}", rule="ORD4")
+V("c17-delitem-hits-wrapped", "C17", DB, "    def __delitem__(self, key):\n        self.cache[key] = DELETED", "    def __delitem__(self, key):\n        self.cache[key] = DELETED\n        self.wrapped_db.pop(key, None)", rule="EFF1")
+V("c17-getitem-deleted-raises", "C17", DB, "            if val is not DELETED:\n                return val\n            else:\n                return self.wrapped_db[key]",
+  "            if val is not DELETED:\n                return val\n            else:\n                raise KeyError(key)", rule="ABS7")
+V("c17-do-deletes-ignored", "C17", DB, "                elif do_deletes:\n                    self.wrapped_db.pop(key, None)", "                else:\n                    self.wrapped_db.pop(key, None)", rule="PROV12")
+V("c17-contains-ignores-marker", "C17", DB, "        if key in self.cache and self.cache[key] is not DELETED:\n            return True", "        if key in self.cache:\n            return True", rule="ABS7")
+V("c17-silent-equivalent-rewrite", "C17", DB, "        try:\n            yield\n        except Exception as exc:\n            raise exc\n        else:\n            for key, value in self.cache.items():\n                if value is not DELETED:\n                    self.wrapped_db[key] = value\n                elif do_deletes:\n                    self.wrapped_db.pop(key, None)\n                # if do_deletes is False, ignore deletes to underlying db\n        finally:\n            self.cache = {}",
+  "        try:\n            yield\n        except Exception:\n            self.cache = {}\n            raise\n        try:\n            for key, value in self.cache.items():\n                if value is not DELETED:\n                    self.wrapped_db[key] = value\n                elif do_deletes:\n                    self.wrapped_db.pop(key, None)\n        finally:\n            self.cache = {}", expect="silent", props=["C17", "C05", "C04"])
+# --- C04 AL4 -----------------------------------------------------------------------
+V("c04-at-root-prune-true", "C04", HX, "snapshot = type(self)(self.db, at_root_hash, prune=False)", "snapshot = type(self)(self.db, at_root_hash, prune=True)", rule="AL4")
+V("c04-silent-at-root-prune-flag", "C04", HX, "snapshot = type(self)(self.db, at_root_hash, prune=False)", "snapshot = type(self)(self.db, at_root_hash, prune=self.is_pruning)", expect="silent")
+V("c04-at-root-copy-db", "C04", HX, "snapshot = type(self)(self.db, at_root_hash, prune=False)", "snapshot = type(self)(dict(self.db), at_root_hash, prune=False)", rule="AL4")
+# --- C06 ORD3 -----------------------------------------------------------------------
+V("c06-set-not-decorated", "C06", HX, "    @prune_pending\n    def set(self, key, value):", "    def set(self, key, value):", rule="ORD3")
